@@ -2,7 +2,7 @@
 // A combined case:  "mt <k> <seed>" then, per thread, "thread" followed by that thread's operations.
 // Every thread runs its own script on its own object / scratch directory behind a barrier, with a generated schedule
 // perturbation (yields / spins before operations). Oracle: (a) ThreadSanitizer (halt_on_error) when built with it,
-// (b) each thread's trace equals the trace of the same script run alone.
+// (b) each thread's trace equals the trace of the same script run alone in a pristine process of its own.
 #include <atomic>
 #include <chrono>
 #include <cstdio>
@@ -58,9 +58,26 @@ int main(int argc, char **argv) {
         const std::string resPath = scratch[maxThreads] + "/rep_result.txt";
         remove(resPath.c_str());
         fflush(stdout); fflush(stderr);
+        // reference: every script alone, EACH IN ITS OWN PRISTINE PROCESS forked from this thread-less parent before anything of the
+        // library ran in it: hidden process-wide state (function-local statics, caches) set by one object cannot carry over to the
+        // reference of another, nor from the concurrent phase to the references
+        std::vector<std::string> alone(per.size());
+        for (size_t t = 0; t < per.size(); ++t) {
+            const std::string ap = scratch[maxThreads] + "/alone_" + std::to_string(t) + ".txt";
+            remove(ap.c_str());
+            pid_t ap_pid = fork();
+            if (ap_pid == 0) {
+                TraceOpts o; o.pathStyle = style; o.pathTag = "t" + std::to_string(t);
+                writeFileText(ap, traceOf(per[t], dirOf(t, true), o));
+                fflush(stdout); fflush(stderr);
+                _exit(0);
+            }
+            int st = 0; waitpid(ap_pid, &st, 0);
+            if (!(WIFEXITED(st) && WEXITSTATUS(st) == 0) || !readFileText(ap, alone[t])) { alone[t] = "reference run terminated abnormally (status " + std::to_string(st) + ")\n"; }
+        }
         pid_t pid = fork();
         if (pid == 0) {
-            std::vector<std::string> alone(per.size()), together(per.size());
+            std::vector<std::string> together(per.size());
             std::atomic<int> ready(0); std::atomic<bool> go(false);
             std::vector<std::vector<Span>> spans(per.size());
             auto t0 = std::chrono::steady_clock::now();
@@ -88,14 +105,12 @@ int main(int argc, char **argv) {
             while (ready.load() < static_cast<int>(per.size())) std::this_thread::yield();
             go.store(true);
             for (auto &x : th) x.join();
-            // reference: every script alone, afterwards
-            for (size_t t = 0; t < per.size(); ++t) { TraceOpts o; o.pathStyle = style; o.pathTag = "t" + std::to_string(t); alone[t] = traceOf(per[t], dirOf(t, true), o); }
             bool ov = false;
             for (size_t a = 0; a < per.size() && !ov; ++a) for (size_t b = a + 1; b < per.size() && !ov; ++b)
                 for (auto &sa : spans[a]) for (auto &sb : spans[b]) if (sa.b < sb.e && sb.b < sa.e) ov = true;
             std::string msg;
             for (size_t t = 0; t < per.size(); ++t)
-                if (alone[t] != together[t]) { msg = "thread " + std::to_string(t) + " of " + std::to_string(per.size()) + " observed results that differ from running its script alone: " + firstDiff(alone[t], together[t]); break; }
+                if (alone[t] != together[t]) { msg = "thread " + std::to_string(t) + " of " + std::to_string(per.size()) + " observed results that differ from running its script alone (in a process of its own): " + firstDiff(alone[t], together[t]); break; }
             writeFileText(resPath, std::string(ov ? "1" : "0") + "\n" + msg + "\n");
             fflush(stdout); fflush(stderr);
             _exit(msg.empty() ? 0 : 1);
